@@ -41,6 +41,10 @@ CLAIMED = {
             "Static, every cut offset and fault kind at once for the clauses that are code shape: the reader has no Ok exit; in read_response_frame the header is a propagated read_exact, a zero-byte read leads to an error exit and cannot re-enter the loop, and Ok is reachable only when the declared length was filled; on the Err outcome of try_join! every path to the router's exit collects the handler map, sends Err to each of its handlers and notifies the pool; both awaits of send_request map a dropped channel end to BrokenConnectionError and nothing unwraps; wrong header version/direction and keepalive timeouts are error exits; a kept connection is always watched and its removal republishes the list; every round of the keepalive loop (tick or hint) issues a keepalive, awaits it, and only a Ready reply lets the next round start. Promptness and TCP behaviour are not decided.",
             "Trusts rustc MIR; anchors are roles (read_buf loop, try_join result, oneshot sends) and fail closed when rewritten.",
             "DESIGN.md §3 C10"),
+    "C11": ("value numbering (term comparison) of the single-path bodies shard_of / shard_of_source_port against the algorithm in the property text; a symbolic congruence domain (linear forms over the inputs modulo nr_shards) for the lowest-port computation; field-sensitive def-use slices through closure captures for the stepped port ranges, the wrap-around iterator and the drawn port; dataflow region for the ShardInfo validation",
+            "Static, expression shape only - nothing is evaluated on concrete numbers and no solver is used: shard_of is, as a term over its inputs, ((token + 2^63 mod 2^64) << msb_ignore) * nr_shards >> 64 with the bias and shift on u64 and the product on u128; shard_of_source_port is port mod nr_shards; ShardInfo is built only by ShardInfo::new, whose Ok lies where shard < nr_shards, fed from the three SCYLLA_* entries in their own positions with the count through NonZero::new; the lowest port of a shard is range_start + r where r is a remainder modulo nr_shards whose class is shard - range_start (congruence domain), computed without 16-bit additions, wrapping operations or a subtraction that can underflow, and it is handed out exactly under `port <= range_end` (a strict or shifted bound is reported); every stepped range is the inclusive [lowest port ..= range_end] stepped by nr_shards itself; the port iterator is skip(k) of one such range chained with take(k) of another with the same k and is empty only where no lowest port exists; the drawn port is an element of such a range. The step from these shapes to 'in range, congruent to the shard, every such port exactly once, below the shard count' is textbook arithmetic that is stated, not machine-checked; an equivalent rewrite into a different arithmetic form is reported for reading.",
+            "Trusts rustc MIR; the algorithm is transcribed from the property text.",
+            "DESIGN.md §3 C11"),
     "C12": ("def-use provenance at every RoutingInfo aggregate (through closure captures), dataflow regions in replicas_for_token, who-may-call on shard_of / ShardInfo, provenance of the pool bucket index",
             "Static, glue only: every RoutingInfo's token is None or computed on the same prepared statement whose table spec and LWT flag it carries; tablet replicas take precedence over strategy-based lookup; the shard of a replica is computed only by the paired node's own sharder; the pool files a connection under the shard the server reported for it and the plan's shard selects the connection; every EXECUTE response feeds the tablet map; every datacenter/rack criterion handed to replica selection in pick()/fallback() derives from the effective preference computed by routing_info() (policy-level, else inherited from the session); the pool keeps its sharder only where the reported one equals it as a whole (shard count and msb_ignore). Correctness of the token, replica set, plan and shard arithmetic themselves is the business of C03/C04/C05/C11.",
             "Trusts rustc MIR; composition only.",
@@ -114,7 +118,6 @@ ROUND5 = {
 
 NOT_APPLICABLE = {
     "C04": "equality of computed replica lists over all rings/strategies: no structural clause that is a meaningful necessary condition; needs evaluation (different technique family)",
-    "C11": "modular / fixed-point arithmetic identities over integer domains (shard_of, port congruences, iteration counts): needs evaluation or an SMT solver, a different family",
 }
 
 ALL = ["C%02d" % i for i in range(1, 21)]
